@@ -40,8 +40,8 @@ var c12nSIMutants = []Mutant{
 	{ID: "C12-SI-index-by-validator", File: "cmd/combine/combine.go", Expect: "SI",
 		Old: "\t\tresp[shareIdx] = secret\n", New: "\t\t_ = shareIdx\n\t\tresp[valIndex+1] = secret\n"},
 	{ID: "C12-SI-index-by-counter", File: "cmd/combine/combine.go", Expect: "SI",
-		Old: "\tfor _, secret := range secrets {\n\t\tpubkey, err := tbls.SecretToPublicKey(secret)",
-		New: "\tnext := 0\n\tfor _, secret := range secrets {\n\t\tnext++\n\t\tpubkey, err := tbls.SecretToPublicKey(secret)",
+		Old:  "\tfor _, secret := range secrets {\n\t\tpubkey, err := tbls.SecretToPublicKey(secret)",
+		New:  "\tnext := 0\n\tfor _, secret := range secrets {\n\t\tnext++\n\t\tpubkey, err := tbls.SecretToPublicKey(secret)",
 		More: [][2]string{{"\t\tresp[shareIdx] = secret\n", "\t\t_ = shareIdx\n\t\tresp[next] = secret\n"}}},
 }
 
@@ -50,6 +50,7 @@ type c12nDep struct {
 	lock    bool               // reaches a read of DistValidator.PubShares
 	unknown string             // first source the slice cannot close over ("" = closed)
 	srcs    map[ssa.Value]bool // phis and parameters met (the "position variables")
+	hits    map[string]bool    // names reported by the slicer's field hook for the struct fields read
 }
 
 type c12nSlicer struct {
@@ -59,6 +60,22 @@ type c12nSlicer struct {
 	noBound bool // do not propagate from the bound of the loop an induction variable belongs to
 	arith   bool // follow the numeric derivation only (constants, phis, arithmetic, spilled locals, parameters)
 	loops   map[*ssa.Function][]*an.Loop
+	// optional (round 5): a hook naming the struct fields of interest that the slice reads, and a function whose
+	// parameters are the inputs of the question (not traced back to its callers)
+	field func(t types.Type, idx int) string
+	root  *ssa.Function
+}
+
+func (s *c12nSlicer) hit(out *c12nDep, t types.Type, idx int) {
+	if s.field == nil {
+		return
+	}
+	if n := s.field(t, idx); n != "" {
+		if out.hits == nil {
+			out.hits = map[string]bool{}
+		}
+		out.hits[n] = true
+	}
 }
 
 func (s *c12nSlicer) inPkg(f *ssa.Function) bool {
@@ -138,6 +155,9 @@ func (s *c12nSlicer) step(v ssa.Value, out *c12nDep) (next []ssa.Value) {
 	case *ssa.Parameter:
 		out.srcs[x] = true
 		fn := x.Parent()
+		if s.root != nil && fn == s.root {
+			break
+		}
 		pi := -1
 		for i, p := range fn.Params {
 			if p == x {
@@ -244,11 +264,13 @@ func (s *c12nSlicer) step(v ssa.Value, out *c12nDep) (next []ssa.Value) {
 		if c12nIsPubShares(x.X.Type(), x.Field) {
 			out.lock = true
 		}
+		s.hit(out, x.X.Type(), x.Field)
 		add(x.X)
 	case *ssa.FieldAddr:
 		if c12nIsPubShares(x.X.Type(), x.Field) {
 			out.lock = true
 		}
+		s.hit(out, x.X.Type(), x.Field)
 		add(x.X)
 	case *ssa.Alloc:
 		add(s.addrSources(x)...)
